@@ -107,6 +107,7 @@ var (
 	flagTrace   = flag.Bool("trace", false, "trace instructions")
 	flagMaxViol = flag.Int("maxviol", 3, "violations kept per label")
 	flagReplay  = flag.String("replay", "", "replay a counterexample file natively and print the verdict")
+	flagParam   = flag.String("param", "", "override tier parameters, e.g. N=3,L=2 (experiments only)")
 )
 
 func fatal(code int, format string, args ...interface{}) {
@@ -326,6 +327,14 @@ func paramsFor(h *Harness) map[string]int64 {
 	p := map[string]int64{}
 	for k, v := range h.Tiers[*flagTier] {
 		p[k] = v
+	}
+	if *flagParam != "" {
+		for _, kv := range strings.Split(*flagParam, ",") {
+			if i := strings.IndexByte(kv, '='); i > 0 {
+				n, _ := strconv.ParseInt(kv[i+1:], 10, 64)
+				p[kv[:i]] = n
+			}
+		}
 	}
 	return p
 }
